@@ -7,10 +7,12 @@
  *   stray       a signal issued while nobody waits must not wake a later waiter
  *   sem P C     counting semaphore: producers do lock; tokens++; unlock; SIGNAL AFTER UNLOCK; consumers wait for a token
  *   bbb P C n   bounded buffer on ONE condition variable, every put/get does unlock; BROADCAST AFTER UNLOCK
+ *   ack N       the signaler keeps its worker after signalling (spins, never yields) until each of N waiters has acknowledged: with >= 2 workers the
+ *               woken waiters must be resumed on another worker, whichever worker the signaler occupies
  */
 #include "hcommon.h"
 
-enum { F_BB, F_GATE, F_TURN, F_STRAY, F_SEM, F_BBB };
+enum { F_BB, F_GATE, F_TURN, F_STRAY, F_SEM, F_BBB, F_ACK };
 typedef struct { int fam, a, b, n, W, K; } prog_t;
 #define MAXP 400
 static prog_t P[2][MAXP]; static int NP[2];
@@ -29,6 +31,7 @@ static void build(void) {
       add(tier, F_TURN, 2, 0, 0, W, k); add(tier, F_TURN, 3, 0, 0, W, tier ? 2 : 1);
       add(tier, F_STRAY, 0, 0, 0, W, k);
       add(tier, F_SEM, 2, 2, 0, W, W == 1 ? k : 2); add(tier, F_SEM, 1, 1, 0, W, k); if (tier) add(tier, F_SEM, 3, 3, 0, W, 1);
+      if (W >= 2) { add(tier, F_ACK, 1, 0, 0, W, W == 2 ? k : 2); add(tier, F_ACK, 2, 0, 0, W, 2); }
       add(tier, F_BBB, 1, 1, 2, W, k); add(tier, F_BBB, 2, 2, 2, W, tier ? 2 : 1); add(tier, F_BBB, 1, 2, 2, W, W == 1 ? k : 2);
     }
   }
@@ -43,6 +46,7 @@ static void describe(int tier, int prog, char * b, size_t n) {
   case F_TURN: snprintf(b, n, "turnstile threads=%d (broadcast)", p->a); break;
   case F_SEM: snprintf(b, n, "semaphore producers=%d consumers=%d (signal after unlock)", p->a, p->b); break;
   case F_BBB: snprintf(b, n, "bounded-buffer on one cond, producers=%d consumers=%d items=%d (broadcast after unlock)", p->a, p->b, p->n); break;
+  case F_ACK: snprintf(b, n, "signaler keeps its worker until %d signalled waiter(s) acknowledged (resumed on another worker)", p->a); break;
   default: snprintf(b, n, "stray signal before any waiter"); break;
   }
 }
@@ -139,6 +143,23 @@ static void * stray_setter(void * a) {
   return 0;
 }
 
+/* F_ACK */
+static volatile int ack_ready, ack_count;
+static void * ack_waiter(void * a) {
+  (void)a;
+  myth_mutex_lock(&m);
+  while (!ack_ready) { myth_cond_wait(&c0, &m); held_witness("ack waiter"); }
+  myth_mutex_unlock(&m);
+  mv_point(&ack_count, sizeof ack_count); __sync_fetch_and_add(&ack_count, 1);
+  return 0;
+}
+static void * ack_signaler(void * a) {
+  int n = (int)(long)a;
+  myth_mutex_lock(&m); ack_ready = 1; myth_cond_broadcast(&c0); myth_mutex_unlock(&m);
+  while (ack_count < n) mv_spin_until_changed(&ack_count, sizeof ack_count);   /* keeps the worker: the waiters need another one */
+  return 0;
+}
+
 static void run(int tier, int prog) {
   build(); cur = &P[tier][prog];
   mv_start(cur->W);
@@ -170,6 +191,12 @@ static void run(int tier, int prog) {
     for (int i = 0; i < cur->a; i++) th[nt++] = myth_create(sem_producer, 0);
     for (int i = 0; i < nt; i++) myth_join(th[i], 0);
     MV_CHECK(taken == cur->b && tokens == cur->a - cur->b, "semaphore: %d tokens taken, %d left (produced %d, consumers %d)", taken, tokens, cur->a, cur->b);
+    break;
+  case F_ACK:
+    for (int i = 0; i < cur->a; i++) th[nt++] = myth_create(ack_waiter, 0);
+    th[nt++] = myth_create(ack_signaler, (void *)(long)cur->a);
+    for (int i = 0; i < nt; i++) myth_join(th[i], 0);
+    MV_CHECK(ack_count == cur->a, "%d of %d waiters acknowledged", ack_count, cur->a);
     break;
   case F_BBB: {
     int per_p = cur->n / cur->a, per_c = cur->n / cur->b;
